@@ -568,7 +568,9 @@ class SCCWriter(BaseWriter):
         for index, (code, start, end) in enumerate(codes):
             code_words = len(code) / 5 + 8
             code_time_microseconds = code_words * MICROSECONDS_PER_CODEWORD
-            code_start = start - code_time_microseconds
+            # (never before 0: a negative timecode is not valid SCC and is
+            # rejected by pycaption's own SCCReader)
+            code_start = max(start - code_time_microseconds, 0)
             if index == 0:
                 continue
             previous_code, previous_start, previous_end = codes[index - 1]
